@@ -255,6 +255,11 @@ def reject_core():
                  tags=('nonutf8',)))
     D.append(Def('rej_nonutf8_ic', variants=[Var('A', [T(b'\xE9t\xE9', ignore_case=True)]), Var('W', [R('[a-z]+')])], expect='reject',
                  tags=('nonutf8',)))
+    # subpatterns written as *str* literals that leave UTF-8 through (?-u:...), unused and used
+    D.append(Def('rej_nonutf8_sub_str', subs=[('x', '(?s-u:.)')], variants=[Var('A', [R('[a-z]+')])], expect='reject',
+                 tags=('nonutf8', 'subpat')))
+    D.append(Def('rej_nonutf8_sub_str2', subs=[('hi', '(?-u:[\\x80-\\xFF])')], variants=[Var('A', [R('a(?&hi)')])], expect='reject',
+                 tags=('nonutf8', 'subpat')))
     D.append(Def('rej_skip_tie', skips=[R('[ \\t\\n]'), R('\\n')], variants=[Var('W', [R('[a-z]+')])], expect='reject', tags=('tie',)))
     D.append(Def('rej_skip_tie2', skips=[T(' '), R(' ')], variants=[Var('W', [R('[a-z]+')])], expect='reject', tags=('tie',)))
     D.append(Def('rej_skip_tie3', skips=[R('#+', prio=7), R('#{2}', prio=7)], variants=[Var('H', [T('#')])], expect='reject',
